@@ -94,6 +94,7 @@ type spConn struct {
 	held     map[string]*holder
 	cver     map[string]uint64
 	tracked  map[string]bool
+	ended    map[string]string // why the connection stopped tracking the key: untrack / removal / unsubscribe
 	subbed   bool
 	neg      bool
 	consumed int
@@ -343,7 +344,7 @@ func (r *spRunner) newConn(name string) (*spConn, error) {
 	if conn.Connect() == nil {
 		return nil, fmt.Errorf("connect failed")
 	}
-	c := &spConn{name: name, conn: conn, reqs: map[uint32]spFrame{}, held: map[string]*holder{}, cver: map[string]uint64{}, tracked: map[string]bool{}}
+	c := &spConn{name: name, conn: conn, reqs: map[uint32]spFrame{}, held: map[string]*holder{}, cver: map[string]uint64{}, tracked: map[string]bool{}, ended: map[string]string{}}
 	r.uidOf[name] = conn.Client.ID()
 	return c, nil
 }
@@ -474,6 +475,9 @@ func (r *spRunner) consume(c *spConn) []spVerdict {
 			}
 			c.seen = append(c.seen, sf)
 		case rep.Id != 0 && rep.Unsubscribe != nil:
+			for k := range c.tracked {
+				c.ended[k] = "unsubscribe"
+			}
 			c.subbed, c.tracked, c.held = false, map[string]bool{}, map[string]*holder{}
 			c.seen = append(c.seen, spFrame{T: "unsubreply"})
 		case rep.Id != 0 && rep.SubRefresh != nil:
@@ -482,6 +486,7 @@ func (r *spRunner) consume(c *spConn) []spVerdict {
 			f := spFrame{T: req.T, K: req.K}
 			if req.T == "trackreply" {
 				c.tracked[req.K] = true
+				delete(c.ended, req.K)
 				c.held[req.K] = &holder{}
 				c.cver[req.K] = uint64(req.Ver) // the version the client supplied
 				for _, p := range rep.SubRefresh.Items {
@@ -497,18 +502,24 @@ func (r *spRunner) consume(c *spConn) []spVerdict {
 				}
 			} else {
 				c.tracked[req.K] = false
+				c.ended[req.K] = "untrack"
 				delete(c.held, req.K)
 			}
 			c.seen = append(c.seen, f)
 		case rep.Push != nil && rep.Push.Channel == r.ch && rep.Push.Pub != nil && rep.Push.Pub.Removed:
 			k := rep.Push.Pub.Key
 			c.tracked[k] = false
+			c.ended[k] = "removal"
 			delete(c.held, k)
 			c.seen = append(c.seen, spFrame{T: "removed", K: k})
 		case rep.Push != nil && rep.Push.Channel == r.ch && rep.Push.Pub != nil:
 			p := rep.Push.Pub
 			if !c.subbed || !c.tracked[p.Key] {
-				vs = append(vs, spVerdict{"update-for-untracked-key", fmt.Sprintf("update of key %s version %d pushed while the connection does not track it (after untrack ack / removal / end of the subscription); frames %s", p.Key, p.Version, vh.J(c.seen))})
+				why := c.ended[p.Key]
+				if why == "" {
+					why = "never-tracked"
+				}
+				vs = append(vs, spVerdict{"update-for-untracked-key:after-" + why, fmt.Sprintf("update of key %s version %d pushed while the connection does not track it (after untrack ack / removal / end of the subscription); frames %s", p.Key, p.Version, vh.J(c.seen))})
 			}
 			if p.Version <= c.cver[p.Key] {
 				vs = append(vs, spVerdict{"version-not-increasing", fmt.Sprintf("update of key %s version %d pushed, the connection already has version %d; frames %s", p.Key, p.Version, c.cver[p.Key], vh.J(c.seen))})
@@ -520,6 +531,9 @@ func (r *spRunner) consume(c *spConn) []spVerdict {
 			c.cver[p.Key] = p.Version
 			c.seen = append(c.seen, pf)
 		case rep.Push != nil && rep.Push.Channel == r.ch && rep.Push.Unsubscribe != nil:
+			for k := range c.tracked {
+				c.ended[k] = "unsubscribe"
+			}
 			c.subbed, c.tracked, c.held = false, map[string]bool{}, map[string]*holder{}
 			f := spFrame{T: "unsub"}
 			if rep.Push.Unsubscribe.Code != unsubCodeIns {
